@@ -164,6 +164,10 @@ where
 {
     let tx = safe_apply_args(tx, args)?;
 
+    // sizing of min-utxo values looks at the previously compiled body: it must be a
+    // body of *this* transaction, never one left behind by an earlier resolution
+    compiler.reset();
+
     let max_optimize_rounds = max_optimize_rounds.max(3);
 
     let mut last_eval = None;
